@@ -222,6 +222,12 @@ def do_subhypergraph(sim, rec, props):
     def shaped(sel, j):
         if sel is None:
             return None
+        if j == 0 and rec.get("as_one") == "tuple":
+            return tuple(sel)
+        if j == 0 and rec.get("as_one") == "str":
+            return "".join(sel)
+        if j == 0 and len(sel) >= 2 and all(isinstance(x, str) and len(x) == 1 for x in sel) and rec["uid"] % 3 == 0:
+            return "".join(sel)  # a string is an iterable of one-character labels
         try:
             return shapes[(rec["uid"] + j) % len(shapes)](sel)
         except TypeError:  # unhashable element in a set shape
@@ -266,9 +272,18 @@ def gen_subhypergraph(sim, kinds=("H",)):
         nodes = [n for n in m.nodes if g.r.random() < 0.7] + ([g.r.choice(g.node_u())] if g.r.random() < 0.3 else [])
     if g.r.random() < 0.5 and m.kind == "H":
         edges = [e for e in m.edges if g.r.random() < 0.7] + ([g.r.choice(g.edge_u())] if g.r.random() < 0.3 else [])
-    return {"uid": g.next_uid(), "op": "subhypergraph", "src": src, "new": free[0],
-            "nodes": None if nodes is None else enc(nodes), "edges": None if edges is None else enc(edges),
-            "keep_isolates": g.r.random() < 0.6}
+    rec = {"uid": g.next_uid(), "op": "subhypergraph", "src": src, "new": free[0],
+           "nodes": None if nodes is None else enc(nodes), "edges": None if edges is None else enc(edges),
+           "keep_isolates": g.r.random() < 0.6}
+    # a selection that, taken as one object, is itself a node label: the tuple (0, 1) when (0, 1) is
+    # a node, the string "ab" when "ab" is a node (a string selects its characters)
+    comp = [n for n in m.nodes if (isinstance(n, tuple) and len(n) >= 1 and all(x in m.nodes for x in n)) or
+            (isinstance(n, str) and len(n) >= 2 and all(ch in m.nodes for ch in n))]
+    if comp and g.r.random() < 0.5:
+        c = g.r.choice(comp)
+        rec["nodes"] = enc(list(c))
+        rec["as_one"] = "tuple" if isinstance(c, tuple) else "str"
+    return rec
 
 
 # ---------------------------------------------------------------------------
